@@ -57,6 +57,11 @@ def split_markdown_hard_breaks(text: str) -> list[str]:
     return segments
 
 
+def _lone_backslash_at_end(line: str) -> int:
+    """1 if the line ends in a literal (unescaped) backslash, which gets escaped at a line end."""
+    return (len(line) - len(line.rstrip("\\"))) % 2
+
+
 def _protect_trailing_backslashes(wrapped: str, is_last: bool) -> str:
     """
     A literal backslash that wrapping leaves at the end of a line (as in `a \\ b` at a narrow
@@ -66,7 +71,7 @@ def _protect_trailing_backslashes(wrapped: str, is_last: bool) -> str:
     for i, line in enumerate(lines):
         if i == len(lines) - 1 and is_last:
             break
-        if (len(line) - len(line.rstrip("\\"))) % 2 == 1:
+        if _lone_backslash_at_end(line):
             lines[i] = line + "\\"
     return "\n".join(lines)
 
@@ -208,7 +213,8 @@ def line_wrap_by_sentence(
                 len(lines) > 0
                 and wrapped
                 and length(lines[-1]) < min_line_len
-                and length(lines[-1]) + 1 + length(wrapped[0]) <= width
+                and length(lines[-1]) + 1 + length(wrapped[0]) + _lone_backslash_at_end(wrapped[0])
+                <= width
             ):
                 lines[-1] += " " + wrapped[0]
                 wrapped.pop(0)
